@@ -21,7 +21,7 @@ structure LeastActionNH (H U Ui Ht : A) : Prop where
   elim : Rem Ht = 0
   gauge : Sel (U - Ui) = 0
 
-theorem nh_step (u : Unperturbed A) (hg : Gapped u.H0) {H U1 U2 V1 V2 Ht1 Ht2 : A} (hH : H - u.H0 ∈ I (A := A) 1)
+theorem nh_step (u : UnperturbedNH A) (hg : Gapped u.H0) {H U1 U2 V1 V2 Ht1 Ht2 : A} (hH : H - u.H0 ∈ I (A := A) 1)
     (h1 : LeastActionNH H U1 V1 Ht1) (h2 : LeastActionNH H U2 V2 Ht2) (n : ℕ) (hn : U1 - U2 ∈ I (A := A) n) :
     U1 - U2 ∈ I (A := A) (n + 1) := by
   set δ := U1 - U2 with hδ
@@ -91,7 +91,7 @@ theorem nh_step (u : Unperturbed A) (hg : Gapped u.H0) {H U1 U2 V1 V2 Ht1 Ht2 : 
   rw [← Sel_add_Rem δ]
   exact Submodule.add_mem _ hsel hrem
 
-theorem nh_unique (u : Unperturbed A) (hg : Gapped u.H0) {H U1 U2 V1 V2 Ht1 Ht2 : A} (hH : H - u.H0 ∈ I (A := A) 1)
+theorem nh_unique (u : UnperturbedNH A) (hg : Gapped u.H0) {H U1 U2 V1 V2 Ht1 Ht2 : A} (hH : H - u.H0 ∈ I (A := A) 1)
     (h1 : LeastActionNH H U1 V1 Ht1) (h2 : LeastActionNH H U2 V2 Ht2) : U1 = U2 ∧ V1 = V2 ∧ Ht1 = Ht2 := by
   have hU : U1 = U2 := by
     have : U1 - U2 = 0 := eq_zero_of_contraction _ (nh_step u hg hH h1 h2)
@@ -105,7 +105,7 @@ theorem nh_unique (u : Unperturbed A) (hg : Gapped u.H0) {H U1 U2 V1 V2 Ht1 Ht2 
 
 namespace NH
 
-theorem code_least_action {u : Unperturbed A} (e : NonHermEqs A u)
+theorem code_least_action {u : UnperturbedNH A} (e : NonHermEqs A u)
     (hk : u.H0 * (P kc e.Up + P kn e.Up) = (P kc e.Up + P kn e.Up) * u.H0) :
     LeastActionNH e.H e.U e.Ud e.H_tilde where
   U_mem := by
@@ -128,7 +128,7 @@ theorem code_least_action {u : Unperturbed A} (e : NonHermEqs A u)
     unfold Sel
     rw [C05_gauge e kc (Or.inl rfl), C05_gauge e kn (Or.inr rfl), add_zero]
 
-theorem H_sub_H0_mem {u : Unperturbed A} (e : NonHermEqs A u) : e.H - u.H0 ∈ I (A := A) 1 := by
+theorem H_sub_H0_mem {u : UnperturbedNH A} (e : NonHermEqs A u) : e.H - u.H0 ∈ I (A := A) 1 := by
   have h := e.in_H_zeroth
   have : e.H - u.H0 = tl e.H := by rw [← h]; abel
   rw [this]; exact tl_mem _
@@ -142,7 +142,7 @@ variable {A' : Type*} [Ring A'] [StarRing A'] [Algebra ℚ A'] [StarModule ℚ A
 
 /-- naturality of the non-Hermitian algorithm (no star required of `φ`), under the hypothesis of C05_similarity
     on both sides -/
-theorem natural_nh {u : Unperturbed A} {u' : Unperturbed A'} (φ : A →+* A')
+theorem natural_nh {u : UnperturbedNH A} {u' : UnperturbedNH A'} (φ : A →+* A')
     (hSel : ∀ a : A, φ (Sel a) = Sel (φ a))
     (hI : ∀ a : A, a ∈ I (A := A) 1 → φ a ∈ I (A := A') 1)
     (hg : Gapped u'.H0) (e : NonHermEqs A u) (e' : NonHermEqs A' u') (hH : e'.H = φ e.H)
@@ -168,7 +168,7 @@ theorem natural_nh {u : Unperturbed A} {u' : Unperturbed A'} (φ : A →+* A')
 
 /-- Hermitian limit (C05): when the Hermitian algorithm's output exists for the same `H`, the
     non-Hermitian algorithm returns the same `U`, `U_inv = U†` and `H_tilde`. -/
-theorem C05_hermitian_limit {u : Unperturbed A} (hg : Gapped u.H0) (e : NonHermEqs A u) (m : MainEqs A u) (hH : e.H = m.H)
+theorem C05_hermitian_limit {u : Unperturbed A} (hg : Gapped u.H0) (e : NonHermEqs A u.toUnperturbedNH) (m : MainEqs A u) (hH : e.H = m.H)
     (hk : u.H0 * (P kc e.Up + P kn e.Up) = (P kc e.Up + P kn e.Up) * u.H0) :
     e.U = m.U ∧ e.Ud = m.Ud ∧ e.H_tilde = m.H_tilde := by
   have hm := code_least_action m
@@ -183,7 +183,7 @@ theorem C05_hermitian_limit {u : Unperturbed A} (hg : Gapped u.H0) (e : NonHermE
       sim := by rw [hH]; exact C01_similarity m
       elim := hm.elim
       gauge := by rw [C02_adjoint m]; exact hm.gauge }
-  exact nh_unique u hg (NH.H_sub_H0_mem e) (NH.code_least_action e hk) hm'
+  exact nh_unique u.toUnperturbedNH hg (NH.H_sub_H0_mem e) (NH.code_least_action e hk) hm'
 
 end NatNH
 
